@@ -7,11 +7,12 @@ Driver of the trace monitor (lean_exe `drv_mon`).  Line protocol on stdin:
 * `OP <op line>`   the op about to be observed, in the syntax of `parseOp` (`Driver/Parse.lean`); prints nothing.
                    A line `parseOp` does not accept (driver-level ops: `cmp`, `asw …`, `makeMutH …`) is remembered
                    as "no op": for the following observation only the op-independent checks K1 K2 K3 K5 run
-                   (not the per-op checks K4, K6 – K11).
+                   (not the per-op checks K4, K6 – K13).
 * `OBS <observation line of the implementation>`
                    `<status> out=<out> ev=[<events>] aux=<n> | <slot probes>` (each probe
                    `s<i>=<kind>.<ty>@b<blk>+<off>/len<len>/cnt<count>/<digest>`, the digest is parsed too: K7, K9, K10, K11
-                   use what a handle shows); runs `M1.Mon.checkOp` (K1 – K11) with the
+                   use what a handle shows; for a `cb` op the `out=` field is split into tokens, `parseCbToks`: K12, K13);
+                   runs `M1.Mon.checkOp` (K1 – K13) with the
                    remembered op (`checkObsOnly` if none) and prints `ok` or `FAIL <tag>:<message>;<tag>:<message>…`;
                    prints `unparsed` if the line cannot be parsed (monitor state unchanged).
 
@@ -126,13 +127,30 @@ def parseObsLine (line : String) : Option RawObs :=
     | [] => none
   | [] => none
 
+/-- one token of the `out=` field of a `cb` op: `cnt=<n>` (`cnt=a|b|…`: the accessors read; `cntBad` if they disagree),
+`val=<digest>`, `cloned`, `skip`, `mut=some`, `mut=none`, `replaced`, `swapped` -/
+def parseCbTok (s : String) : CbTok :=
+  if s == "cloned" then .cloned else if s == "skip" then .skip
+  else if s == "mut=some" then .mutSome else if s == "mut=none" then .mutNone
+  else if s == "replaced" then .replaced else if s == "swapped" then .swapped
+  else match stripPrefix "cnt=" s with
+    | some v =>
+      match (v.splitOn "|").mapM (·.toNat?) with
+      | some (n :: r) => if r.all (· == n) then .cnt n else .cntBad
+      | _ => .other
+    | none => if (stripPrefix "val=" s).isSome then .val else .other
+
+/-- the `;`-separated tokens of the `out=` field -/
+def parseCbToks (out : String) : List CbTok := ((out.splitOn ";").filter (fun t => !t.isEmpty)).map parseCbTok
+
 def RawObs.toObs (r : RawObs) (op : Option Op) : Obs :=
   { panicked := isPanicStatus r.status
     badOp := isBadOpStatus r.status
     verdict := match op with | some op => verdictOfOut op r.out | none => none
     valOut := valShown r.out
     evs := r.evs
-    slots := r.slots }
+    slots := r.slots
+    cbToks := match op with | some (.withCb ..) => parseCbToks r.out | _ => [] }
 
 def showFails (fs : List Fail) : String :=
   if fs.isEmpty then "ok" else "FAIL " ++ ";".intercalate (fs.map fun f => f.tag ++ ":" ++ f.msg)
